@@ -89,7 +89,13 @@ def altitude_from_pressure_map_v0(map: npt.ArrayLike):
     def f(lat: float, long: float, *args, **kwargs) -> np.single:
         # lat, long are the geometry stage's ground coordinates in radians
         i = np.searchsorted(latitudes, np.degrees(lat))
-        j = np.searchsorted(longitudes, np.degrees(long))
+        # the map spans -180..180 deg; a longitude outside it (e.g. a detector position
+        # given in the 0..360 deg convention) is the same meridian modulo 360 deg
+        long_deg = np.degrees(long)
+        long_deg = np.where(
+            np.abs(long_deg) > 180.0, (long_deg + 180.0) % 360.0 - 180.0, long_deg
+        )
+        j = np.searchsorted(longitudes, long_deg)
         pressure: np.single = map[i, j]
         return atm.us_std_atm_altitude_from_pressure(pressure)
 
